@@ -1155,11 +1155,18 @@ func runEncrypt(rc *RunCtx, prop string) {
 				if d.next(2) == 0 {
 					info.Body = g.outer("*withinfo.Body", 1)
 				}
-				if d.next(2) == 0 {
+				// (an empty, non-nil slice is a value too: "no salt / info for this event")
+				switch d.next(3) {
+				case 0:
 					info.salt = []byte("event-salt")
+				case 1:
+					info.salt = []byte{}
 				}
-				if d.next(2) == 0 {
+				switch d.next(3) {
+				case 0:
 					info.info = []byte("event-info")
+				case 1:
+					info.info = []byte{}
 				}
 				if d.next(8) == 0 {
 					info.evID = ""
@@ -1182,8 +1189,8 @@ func runEncrypt(rc *RunCtx, prop string) {
 				if g2.d.next(2) == 0 {
 					si.Body = g2.outer("*withinfo.Body", 1)
 				}
-				g2.d.next(2)
-				g2.d.next(2)
+				g2.d.next(3)
+				g2.d.next(3)
 				g2.d.next(8)
 				si.salt, si.info = info.salt, info.info
 				snapshot = si
